@@ -353,11 +353,13 @@ package measure
 //@   loop 1 decreases len(left.timestamps) - i
 //
 //@ section WIP-C02q
+// (work in progress, not attributed to a claimed property: every obligation has been discharged in some runs, but three of
+// them sit at the solvers' limit and time out in others; see /verif/DESIGN.md 7.2)
 // ---- query-time merge of the block cursors of one series: one row per timestamp ----
 // container/heap is external (assumed as for the sidx merge): a ghost flag records which cursors the heap still owns.
 //@ type blockCursor
 //@   ghost inHeap bool
-//@ spec func bcValid(c *blockCursor) bool = 0 <= c.idx && c.idx < len(c.timestamps) && len(c.versions) == len(c.timestamps) && !fresh(c.timestamps) && !fresh(c.versions) && c.bm.seriesID != 0
+//@ spec func bcValid(c *blockCursor) bool = c.timestamps != nil && c.versions != nil && 0 <= c.idx && c.idx < len(c.timestamps) && len(c.versions) == len(c.timestamps) && !fresh(c.timestamps) && !fresh(c.versions) && c.bm.seriesID != 0
 //@ spec func qrListOK(qr *queryResult) bool = forall k :: 0 <= k && k < len(qr.data) ==> qr.data[k] != nil && pidx(qr.data[k]) == 0 && qr.data[k].inHeap
 //@ spec func allBC() bool = forall c *blockCursor :: c.inHeap ==> bcValid(c)
 //@ spec func allInc() bool = forall c *blockCursor, a, b :: c.inHeap && 0 <= a && a < b && b < len(c.timestamps) ==> c.timestamps[a] < c.timestamps[b]
@@ -377,6 +379,7 @@ package measure
 //@   ensures  sameobj(unbox(h, queryResult).data, old(unbox(h, queryResult).data)) && off(unbox(h, queryResult).data) == off(old(unbox(h, queryResult).data))
 //@   ensures  !old(unbox(h, queryResult).data[0]).inHeap
 //@   ensures  forall c *blockCursor :: c != old(unbox(h, queryResult).data[0]) ==> c.inHeap == old(c.inHeap)
+//@   ensures  no-cursor-enters: forall c *blockCursor :: c.inHeap ==> old(c.inHeap)
 //@   ensures  qrListOK(unbox(h, queryResult)) && qrTop(unbox(h, queryResult))
 //@ func heap.Fix
 //@   assumed container/heap: re-establishes the heap order after the element at index i changed; same cursors
@@ -395,6 +398,7 @@ package measure
 //@ func blockCursor.copyTo
 //@   assumed appends the cursor's current row to the result (timestamp, version; tag and field columns are outside the model)
 //@   requires bc != nil && r != nil
+//@   requires result-columns-are-private: forall c *blockCursor :: c.inHeap ==> !sameobj(r.Timestamps, c.timestamps) && !sameobj(r.Timestamps, c.versions) && !sameobj(r.Versions, c.timestamps) && !sameobj(r.Versions, c.versions)
 //@   modifies r.Timestamps
 //@   modifies r.Versions
 //@   modifies r.SID
@@ -402,7 +406,7 @@ package measure
 //@   ensures  r.Timestamps[len(r.Timestamps)-1] == bc.timestamps[bc.idx] && r.Versions[len(r.Versions)-1] == bc.versions[bc.idx] && r.SID == bc.bm.seriesID
 //@   ensures  forall j :: 0 <= j && j < old(len(r.Timestamps)) ==> r.Timestamps[j] == old(r.Timestamps[j])
 //@   ensures  forall j :: 0 <= j && j < old(len(r.Versions)) ==> r.Versions[j] == old(r.Versions[j])
-//@   ensures  fresh(r.Timestamps) && fresh(r.Versions)
+//@   ensures  fresh(r.Timestamps) && fresh(r.Versions) && !sameobj(r.Timestamps, r.Versions)
 //@ func blockCursor.replace
 //@   assumed overwrites the last row of the result with the cursor's current row (same timestamp; version, tags, fields)
 //@   requires bc != nil && r != nil && len(r.Versions) > 0
@@ -413,27 +417,37 @@ package measure
 //@   assumed TopN queries only (generated protobuf types)
 //@   requires false
 //
-// merge: the rows of one Pull are strictly ordered by time in the requested direction - no timestamp occurs twice.
+// merge: the rows of one Pull are strictly ordered by time in the requested direction - no timestamp occurs twice - and
+// every cursor row that is consumed is represented by the result row with its timestamp, whose version is at least as high.
 //@ spec func strictTimes(r *model.MeasureResult, asc bool) bool = forall i, j :: 0 <= i && i < j && j < len(r.Timestamps) ==> tsBefore(asc, r.Timestamps[i], r.Timestamps[j])
 //@ func queryResult.merge
 //@   mode int
-//@   timeout 30
+//@   timeout 60
+//@   opt thorough-only quantified invariants over all block cursors; single obligations need up to a minute
+//@   opt decl-pc
 //@   requires qr != nil && pidx(qr) == 0 && qr.orderByTS && qr.topNQueryOptions == nil
 //@   requires qrListOK(qr) && allBC() && qrTop(qr)
 //@   requires sortedBlocks: allInc()
 //@   modifies qr.data
 //@   modifies allof(blockCursor.inHeap)
 //@   modifies allof(blockCursor.idx)
+//@   at-stmt "topBC.copyTo(result, storedIndexValue, tagProjection)" requires a-new-row-is-strictly-later: len(result.Timestamps) == 0 || tsBefore(qr.ascTS, result.Timestamps[len(result.Timestamps)-1], topBC.timestamps[topBC.idx])
+//@   at-stmt "lastVersion = topBC.versions[topBC.idx]" requires all-earlier-rows-before-the-new-one: forall i :: 0 <= i && i < len(result.Timestamps) - 1 ==> tsBefore(qr.ascTS, result.Timestamps[i], result.Timestamps[len(result.Timestamps)-1])
+//@   at-stmt "lastVersion = topBC.versions[topBC.idx]" requires still-strict-after-the-copy: strictTimes(result, qr.ascTS)
+//@   at-stmt "lastVersion = topBC.versions[topBC.idx]" requires blocks-untouched-by-the-copy: allInc()
+//@   at-stmt "topBC.idx += step" requires consumed-row-is-represented-by-a-version-at-least-as-high: len(result.Timestamps) > 0 && result.Timestamps[len(result.Timestamps)-1] == topBC.timestamps[topBC.idx] && result.Versions[len(result.Versions)-1] >= topBC.versions[topBC.idx]
 //@   ensures  one-row-per-timestamp: strictTimes(result, qr.ascTS)
 //@   ensures  aligned: len(result.Versions) == len(result.Timestamps)
 //@   loop 0 split-paths
 //@   loop 0 invariant result != nil && fresh(result) && qr.orderByTS && qr.ascTS == old(qr.ascTS) && !isTopN && (step == 1 || step == -1) && (qr.ascTS <==> step == 1)
-//@   loop 0 invariant cols: len(result.Versions) == len(result.Timestamps) && (result.Timestamps == nil || fresh(result.Timestamps)) && (result.Versions == nil || fresh(result.Versions))
+//@   loop 0 invariant cols: len(result.Versions) == len(result.Timestamps) && (result.Timestamps == nil || fresh(result.Timestamps)) && (result.Versions == nil || fresh(result.Versions)) && (len(result.Timestamps) > 0 ==> !sameobj(result.Timestamps, result.Versions))
 //@   loop 0 invariant hdr: sameobj(qr.data, old(qr.data)) && off(qr.data) == off(old(qr.data)) && len(qr.data) <= old(len(qr.data))
 //@   loop 0 invariant list: qrListOK(qr)
 //@   loop 0 invariant valid: allBC()
 //@   loop 0 invariant top: qrTop(qr)
 //@   loop 0 invariant inputs: allInc()
 //@   loop 0 invariant strict: strictTimes(result, qr.ascTS)
+//@   loop 0 invariant beforeLast: forall i :: 0 <= i && i < len(result.Timestamps) - 1 ==> tsBefore(qr.ascTS, result.Timestamps[i], result.Timestamps[len(result.Timestamps)-1])
+//@   loop 0 invariant lastV: len(result.Timestamps) > 0 ==> result.Versions[len(result.Versions)-1] >= lastVersion
 //@   loop 0 invariant started: (lastSid == 0) == (len(result.Timestamps) == 0)
 //@   loop 0 invariant frontier: len(result.Timestamps) > 0 ==> (forall c *blockCursor :: c.inHeap ==> tsBefore(qr.ascTS, result.Timestamps[len(result.Timestamps)-1], c.timestamps[c.idx]) || result.Timestamps[len(result.Timestamps)-1] == c.timestamps[c.idx])
